@@ -192,8 +192,26 @@ Record obs := mkObs {
   o_held1 : list (N * N);
   o_now : Z }.
 
-(* a history: snaps 1..nsnaps are installed, their initial last-refresh times, the initial clock, the observed steps *)
-Inductive case := mkCase (nsnaps : N) (lr0 : list (N * Z)) (now0 : Z) (steps : list obs).
+(* a history as the driver writes it: snaps 1..nsnaps are installed, their initial last-refresh times, the initial
+   clock, the observed steps. Every time value of the observations is written once in the list `times` and referred to
+   by its position (the same few 19-digit numbers occur hundreds of times in a history; elaborating them dominated the
+   cost of evaluating the cases). *)
+Record robs := mkRObs {
+  ro_op : op;
+  ro_res : option Z;
+  ro_table : list (N * N * N * N * N);      (* held, holder, first-held #, hold-until #, level *)
+  ro_held0 : list (N * N);
+  ro_held1 : list (N * N);
+  ro_now : N }.
+Inductive case := mkCase (nsnaps : N) (times : list Z) (lr0 : list (N * N)) (now0 : N) (steps : list robs).
+
+Definition tz (times : list Z) (i : N) : Z := nth (N.to_nat i) times 0.
+Definition decode_obs (times : list Z) (o : robs) : obs :=
+  mkObs (ro_op o) (ro_res o)
+        (map (fun e => match e with (s, g, f, u, l) => (s, g, tz times f, tz times u, l) end) (ro_table o))
+        (ro_held0 o) (ro_held1 o) (tz times (ro_now o)).
+Definition decode_lr (times : list Z) (lr0 : list (N * N)) : list (N * Z) :=
+  map (fun e => (fst e, tz times (snd e))) lr0.
 
 Fixpoint assoc (l : list (N * Z)) (x : N) (d : Z) : Z :=
   match l with [] => d | (k, v) :: r => if (k =? x)%N then v else assoc r x d end.
@@ -238,8 +256,9 @@ Fixpoint mismatch_steps (n : N) (st : state) (steps : list obs) : bool :=
   end.
 
 Definition mismatch (c : case) : bool :=
-  match c with mkCase n lr0 now0 steps =>
-    mismatch_steps n (init_state (fun x => assoc lr0 x 0) now0) steps
+  match c with mkCase n times lr0 now0 steps =>
+    let lr := decode_lr times lr0 in
+    mismatch_steps n (init_state (fun x => assoc lr x 0) (tz times now0)) (map (decode_obs times) steps)
   end.
 
 (* ------------------------------------------------------------------ monitor: the property on the observed behaviour.
@@ -336,7 +355,8 @@ Fixpoint monitor_steps (n : N) (m : mon) (steps : list obs) : bool :=
 
 (* explicit durations are outside the property's quantifier: such histories are only compared with the model *)
 Definition monitor_fail (c : case) : bool :=
-  match c with mkCase n lr0 now0 steps =>
-    forallb (fun o => default_duration (o_op o)) steps
-    && monitor_steps n (mkMon [] (fun x => assoc lr0 x 0) []) steps
+  match c with mkCase n times lr0 now0 steps =>
+    let lr := decode_lr times lr0 in
+    forallb (fun o => default_duration (ro_op o)) steps
+    && monitor_steps n (mkMon [] (fun x => assoc lr x 0) []) (map (decode_obs times) steps)
   end.
